@@ -397,7 +397,10 @@ SMALL_ITEMS = [b"K\x01", b"X\x01\x00\x00\x00a", b"]", b")", b"}", b"cm\nC\n", b"
 SWEEP_OPS = [b"0", b"1", b"2", b"(", b"a", b"e", b"s", b"u", b"d", b"l", b"t", b"\x85", b"\x86", b"\x87", b")", b"]", b"}",
              b"R", b"Q", b"Px\n", b"\x93", b"b", b"o", b"i", b"\x81", b"\x92", b"\x94", b"p1\n", b"q\x01", b"r\x01\x00\x00\x00",
              b"g1\n", b"h\x01", b"j\x01\x00\x00\x00", b"q\x01h\x01", b"\x94h\x00", b"K\x07", b"N", b"\x97", b"\x98", b"\x8f", b"\x90",
-             b"\x91", b"\x80\x03", b"\x80\x02", b"\x95\x00\x00\x00\x00\x00\x00\x00\x00", b"."]
+             b"\x91", b"\x80\x03", b"\x80\x02", b"\x95\x00\x00\x00\x00\x00\x00\x00\x00", b".",
+             # one memo slot written and read through opcodes of different index widths / notations
+             b"q\x01j\x01\x00\x00\x00", b"r\x01\x00\x00\x00h\x01", b"p1\nj\x01\x00\x00\x00", b"\x94j\x00\x00\x00\x00",
+             b"r\x00\x01\x00\x00g256\n", b"p256\nj\x00\x01\x00\x00"]
 
 def stack_sweep(proto_prefixes=(b"", b"\x80\x03")):
     """stack (0..2 items of every kind, 3 items of a reduced set) x every opcode, then STOP"""
@@ -414,4 +417,26 @@ def stack_sweep(proto_prefixes=(b"", b"\x80\x03")):
         if b"bytearray" in st or b"encode" in st:
             for op in (b"R", b"\x85R", b"\x86R"):
                 out.append(b"\x80\x03" + st + op + b".")
+    return out
+
+
+# ---- cyclic objects as operands of every opcode -------------------------------------------------
+# a dict / list / Dict-in-tuple that contains itself, alone and next to every other kind of item, under every
+# opcode: error paths that format or walk their operands (REDUCE's messages, key checks, BUILD ...) must not
+# recurse without bound
+CYCLIC_ITEMS = [b"}q\x00K\x01h\x00s",            # d = {1: d}
+                b"]q\x00h\x00a",                  # l = [l]
+                b"]q\x00h\x00a\x85",              # (l,) with l = [l]
+                b"}q\x00K\x01]q\x01h\x00as"]      # d = {1: [d]}
+def cyclic_operand_programs():
+    out = []
+    for c in CYCLIC_ITEMS:
+        stacks = [c, b"(" + c, c + b")", b")" + c]
+        stacks += [c + it for it in STACK_ITEMS] + [it + c for it in STACK_ITEMS]
+        stacks += [c + c2 for c2 in CYCLIC_ITEMS[:2]]
+        for st in stacks:
+            for op in SWEEP_OPS:
+                out.append(st + op + b".")
+                # the operand dropped again so that the result is printable whatever happened
+                out.append(st + op + b"0N.")
     return out
